@@ -205,8 +205,9 @@ func ParseTree(b []byte) (*Tree, error) {
 
 // OID encodes an object identifier's content octets.
 func OID(arcs ...int) []byte {
-	out := []byte{byte(arcs[0]*40 + arcs[1])}
-	for _, a := range arcs[2:] {
+	// X.690 8.19.4: the first two arcs share one subidentifier, 40·X + Y (more than one octet for 2.Y with Y ≥ 48)
+	var out []byte
+	for _, a := range append([]int{arcs[0]*40 + arcs[1]}, arcs[2:]...) {
 		var tmp []byte
 		tmp = append(tmp, byte(a&0x7f))
 		for a >>= 7; a > 0; a >>= 7 {
